@@ -321,7 +321,8 @@ def main():
         elif tsum.get("fallback") and not args.replay:
             # part of the source has a shape the translator does not read: the model kept the recorded value for it, so the theorems
             # speak about the code only as far as the correspondence reaches — widen the search before accepting the run
-            found = search_neighbourhood(pid, cfg, binp, ops, [], workdir, rng, known, deep=True)
+            # (quick tier: 1200 further scenarios, so that the check of an edited tree stays a matter of a minute or two; thorough: 5000)
+            found = search_neighbourhood(pid, cfg, binp, ops, [], workdir, rng, known, deep=True, deep_n=(1200 if tier == "quick" else 5000))
             notes.append("translator fallback (%s): deep neighbourhood search %s" % (",".join(tsum["fallback"]), "found a failing input" if found else "found nothing"))
             if found:
                 violations.append((found, ""))
@@ -461,7 +462,7 @@ def shrink_scenario(pid, cfg, binp, scen_ops, workdir, known, nouf_bin=None, bud
     return cur
 
 
-def search_neighbourhood(pid, cfg, binp, ops, disagree, workdir, rng, known, deep=False):
+def search_neighbourhood(pid, cfg, binp, ops, disagree, workdir, rng, known, deep=False, deep_n=5000):
     """the correspondence or an obligation broke: look for a concrete input on which the property fails
     on the implementation — neighbours (mutations, truncations, shrinks) of the disagreeing scenarios
     and the property's targeted families."""
@@ -476,7 +477,7 @@ def search_neighbourhood(pid, cfg, binp, ops, disagree, workdir, rng, known, dee
         # (bounded-exhaustive small histories included), capped so that the search stays within a few minutes
         big = cfg["families"](rng, "thorough")
         rng.shuffle(big)
-        extra = extra + big[:5000]
+        extra = extra + big[:deep_n]
     if not scens and not extra:
         return None
     try:
